@@ -226,7 +226,7 @@ def run(ctx):
             o = hplapi.outcome((PC if as_pred else PE).parse, text)
             if o[0] == 'ok' and not (as_pred and getattr(o[1], 'is_vacuous', False)):
                 h = o[1]
-                feats = A.features(e) | {'api:replace_var_with_this'}
+                feats = A.features(e) | {'api:replace_var_with_this'} | bare_alias_features(e)
                 ctx.begin_case(feats)
                 orr = hplapi.outcome(replace_var_with_this, h, names[0])
                 occ = slots_of(e, lambda x: x == A.var(names[0]))
@@ -253,7 +253,7 @@ def run(ctx):
                         ob = hplapi.outcome(replace_this_with_var, r, names[0])
                         ctx.count('inverse_judged')
                         if ob[0] == 'ok':
-                            _inverse_check(h, r, ob[1], text, feats | bare_alias_features(e), viol)
+                            _inverse_check(h, r, ob[1], text, feats, viol)
                         elif ob[0] != 'ok':
                             viol('replace-raises', {'input': str(r)[:200], 'api': 'replace_this_with_var',
                                                     'error': type(ob[1]).__name__}, feats)
